@@ -414,5 +414,5 @@ def run(ctx):
     execs = [["RESET"] + lines[i:i + PER_EXEC] for i in range(0, len(lines), PER_EXEC)]
     ctx.add_sample({"script": execs[0][:6]})
     ctx.add_sample({"script": [ln[:200] for ln in execs[-1][:6]]})
-    pipeline.drive_and_validate(ctx, exe, execs, SPEC_DIR, "ParsersTrace", "Trace.cfg", label="parse", nbatch=16,
+    pipeline.drive_and_validate(ctx, exe, execs, SPEC_DIR, "ParsersTrace", "Trace.cfg", label="parse", nbatch=16 if not thorough else 96, xmx="3g" if not thorough else "6g",
                                 harness_timeout=900, tlc_timeout=1500)
